@@ -421,7 +421,7 @@ def r10_14(rep):
                   "the nested search descends into a member type without asking whether it is opaque", fm.loc(c))
 
 
-@RULES.rule("R10.15", "the hand-written Debug impl asks at every step whether the type was vouched for (shared with C08 R8.14)", floor=3)
+@RULES.rule("R10.15", "the hand-written Debug impl asks at every step whether the type was vouched for (shared with C08 R8.14)", floor=4)
 def r10_15(rep):
     """`Item::impl_debug` recurses through typedefs, references and array elements.  The question "is this item allowlisted" has to
     be asked inside that recursion: asked once for the member's own type, `typedef struct Blocked blocked_t; struct S { blocked_t t; }`
